@@ -255,3 +255,7 @@ func StateDigest(ctx sdk.Context) string {
 	}
 	return sb.String()
 }
+
+// KnownAddress tells the engine about an account the harness uses, so that a SYMBOLIC receiver string can decode to it
+// (bech32 preimage axiom: an address has exactly two spellings, lower and upper case). Natively a no-op.
+func KnownAddress(a sdk.AccAddress) {}
